@@ -237,6 +237,17 @@ pub fn emit_module(k: usize, spec: &AppSpec) -> String {
     }
     // ---- components
     let bulk = spec.bulk_groups();
+    // typed path parameters: components that ask for the same fields share one struct (declared at the top of the module)
+    let mut pp_structs: std::collections::BTreeSet<String> = Default::default();
+    for c in &spec.comps {
+        if let Some(fields) = c.route.as_ref().map(|r| &r.path_param_fields).filter(|f| !f.is_empty()) {
+            let pn = format!("PP_{}", fields.join("_"));
+            if pp_structs.insert(pn.clone()) {
+                let fields: String = fields.iter().map(|f| format!("    pub {f}: String,\n")).collect();
+                let _ = writeln!(s, "#[pavex::request::path::PathParams]\npub struct {pn} {{\n{fields}}}");
+            }
+        }
+    }
     for (idx, c) in spec.comps.iter().enumerate() {
         let name = comp_name(k, idx);
         let mut sig = String::new();
@@ -257,9 +268,13 @@ pub fn emit_module(k: usize, spec: &AppSpec) -> String {
         // middlewares may ask for typed path parameters too (the carrier is `route.path_param_fields`)
         if matches!(c.kind, CompKind::Pre | CompKind::Post | CompKind::Wrap) {
             if let Some(fields) = c.route.as_ref().map(|r| &r.path_param_fields).filter(|f| !f.is_empty()) {
-                let fields: String = fields.iter().map(|f| format!("    pub {f}: String,\n")).collect();
-                let _ = writeln!(s, "#[pavex::request::path::PathParams]\npub struct PP{idx} {{\n{fields}}}");
-                let _ = write!(sig, "pp: &pavex::request::path::PathParams<PP{idx}>, ");
+                // (components that ask for the same fields share one struct)
+                let pn = format!("PP_{}", fields.join("_"));
+                if pp_structs.insert(pn.clone()) {
+                    let fields: String = fields.iter().map(|f| format!("    pub {f}: String,\n")).collect();
+                    let _ = writeln!(s, "#[pavex::request::path::PathParams]\npub struct {pn} {{\n{fields}}}");
+                }
+                let _ = write!(sig, "pp: &pavex::request::path::PathParams<{pn}>, ");
             }
         }
         match &c.kind {
@@ -329,9 +344,12 @@ pub fn emit_module(k: usize, spec: &AppSpec) -> String {
                 };
                 let mut extra_sig = String::new();
                 if !route.path_param_fields.is_empty() {
-                    let fields: String = route.path_param_fields.iter().map(|f| format!("    pub {f}: String,\n")).collect();
-                    let _ = writeln!(s, "#[pavex::request::path::PathParams]\npub struct PP{idx} {{\n{fields}}}");
-                    extra_sig = format!("pp: &pavex::request::path::PathParams<PP{idx}>, ");
+                    let pn = format!("PP_{}", route.path_param_fields.join("_"));
+                    if pp_structs.insert(pn.clone()) {
+                        let fields: String = route.path_param_fields.iter().map(|f| format!("    pub {f}: String,\n")).collect();
+                        let _ = writeln!(s, "#[pavex::request::path::PathParams]\npub struct {pn} {{\n{fields}}}");
+                    }
+                    extra_sig = format!("pp: &pavex::request::path::PathParams<{pn}>, ");
                 }
                 let attr = route_attr(&route, k, idx);
                 let _ = writeln!(s, "{attr}\npub {asy}fn x{idx}({extra_sig}{sig}) -> {ret} {{");
